@@ -172,7 +172,7 @@ CHECKS = {
               " Outcome cancel-send: the cancellation lands while one SendMsg of the call is parked inside the transport write. Fault error values drawn from kit.FaultErrKinds."
               " Outcomes pre-cancelled / pre-expired / nearly-expired: calls started on a context that has ended or is about to."),
         jobs=[dict(test="TestC14", quick=1600, thorough=48000), dict(test="FuzzC14", kind="fuzz", quick=0, thorough=90)],
-        floors={"TestC14:outcome=openfail": 0.3, "TestC14:outcome=cancel": 0.3, "TestC14:outcome=cancel-unread": 0.15, "TestC14:outcome=deadline": 0.3, "TestC14:outcome=reset": 0.3, "TestC14:outcome=cancel-send": 0.1, "TestC14:outcome=pre-expired": 0.1, "TestC14:outcome=nearly-expired": 0.05},
+        floors={"TestC14:outcome=openfail": 0.2, "TestC14:outcome=cancel": 0.25, "TestC14:outcome=cancel-unread": 0.12, "TestC14:outcome=deadline": 0.25, "TestC14:outcome=reset": 0.2, "TestC14:outcome=cancel-send": 0.1, "TestC14:outcome=pre-expired": 0.1, "TestC14:outcome=nearly-expired": 0.05},
         assumptions=COMMON_ASSUMPTIONS + ["registry sizes are read through the verif-tagged accessors VerifClientCalls / VerifServerStreams"],
     ),
     "C20": dict(
